@@ -214,3 +214,12 @@ func lemmaCmpTrans(a, b, c Object) (ab, bc, ac int, eab, ebc, eac bool) {
 // Data invariant of object values held in interfaces (what the constructors establish).
 //@ define wfMapObj(o) = implies(isMap(o), mpSorted(o))
 //@ define wfObj(o) = plain(o) && wfArr(o) && wfMapObj(o)
+
+// SaveGlobals reports the first write error: when it returns nil no write to `to` failed (ghost werr unchanged).
+//@ func (*Environment).SaveGlobals
+//@   requires e != nil && to != nil
+//@   modifies *
+//@   nosafety
+//@   ensures  noerr:: implies(result1 == nil, ghost("werr", ifaceval(to)) == old(ghost("werr", ifaceval(to))))
+//@   loop 3 invariant ghost("werr", ifaceval(to)) == old(ghost("werr", ifaceval(to)))
+//@   property C18 C14
